@@ -4,6 +4,7 @@ import MidnightZK.Proofs.C11.Jubjub
 import MidnightZK.Proofs.C11.Toy
 import MidnightZK.Proofs.C11.Weierstrass
 import MidnightZK.Proofs.C11.Codec
+import MidnightZK.Proofs.C11.JubjubField
 import MidnightZK.Model.C11.Params
 import MidnightZK.Model.C11.Codec
 import MidnightZK.Gen.C11Constants
@@ -502,6 +503,16 @@ theorem jubjub_completeness_witnesses :
       0x8d51ccce760304d0ec030002760300000001000000000000) % Params.blsR = Params.blsR - 1 ∧
     2 % Params.blsR ≠ 0 := by
   decide +kernel
+
+/-- The completeness hypotheses `Complete d` of the Jubjub theorems hold for the actual constants
+of `jubjub/curve.rs` over `ZMod q` (`q` = BLS12-381 scalar modulus), once `q` is prime — which is
+theorem `bls_scalar_prime` of property C10. Hence `ext_add_spec`, `ext_double_spec`,
+`multiply_spec`, … apply to every Jubjub point without side conditions. -/
+theorem jubjub_complete_of_prime (hp : Nat.Prime Params.blsR) :
+    haveI := Fact.mk hp
+    Complete ((Gen.C11.jjD : ℕ) : ZMod Params.blsR) :=
+  haveI := Fact.mk hp
+  complete_of_euler (by decide) jubjub_completeness_witnesses.1 jubjub_completeness_witnesses.2.1
 
 /-- `curve25519/curve.rs`: `CURVE_A = -1`, `CURVE_D = -(121665/121666)`. -/
 theorem curve25519_constants :
